@@ -107,6 +107,10 @@ type ReqSpec struct {
 	// w.(http.Hijacker), 2 through http.NewResponseController(w), and writes
 	// its answer to the connection itself (protocol upgrades, proxies).
 	Hijack int `json:"hijack,omitempty"`
+	// EmptyFirst: the handler starts with a zero-length Write (commits status
+	// 200 and the headers so far); it then sets its header and writes its body
+	// without calling WriteHeader.
+	EmptyFirst bool `json:"empty_first,omitempty"`
 	// NoRaddr / NoURI: the request has an empty RemoteAddr / RequestURI (built
 	// in-process or with http.NewRequest rather than received by a server).
 	NoRaddr bool `json:"no_raddr,omitempty"`
@@ -187,6 +191,7 @@ type sink struct {
 	flushes  int
 	hijacks  int
 	hijacked strings.Builder // what was written to the hijacked connection
+	sent     http.Header     // headers as committed with the final status
 }
 
 // Flush and Hijack give the sink the optional interfaces of a real server's
@@ -223,6 +228,7 @@ func (s *sink) WriteHeader(code int) {
 		return
 	}
 	s.Code, s.final = code, true
+	s.sent = s.hdr.Clone() // what the client receives: the headers at commit time
 }
 func (s *sink) Write(b []byte) (int, error) {
 	if !s.final {
@@ -346,6 +352,11 @@ func checkBatch(c BatchCase) error {
 			_ = conn.Close()
 			return
 		}
+		if spec.EmptyFirst {
+			// A zero-length Write commits the response (status 200 and the
+			// headers set so far), as net/http documents.
+			_, _ = w.Write(nil)
+		}
 		if spec.Header {
 			w.Header().Set("X-Resp", "resp-"+id)
 		}
@@ -468,7 +479,12 @@ func checkBatch(c BatchCase) error {
 		if !slices.Equal(rr.info, spec.Pre1xx) {
 			return fmt.Errorf("client of request %s received informational responses %v, the invocation sent %v", id, rr.info, spec.Pre1xx)
 		}
-		if got := rr.Header().Get("X-Resp"); spec.Header && got != "resp-"+id || !spec.Header && got != "" {
+		wantHdr := spec.Header && !spec.EmptyFirst // a header set after the response was committed is not sent
+		sent := rr.sent
+		if !rr.final {
+			sent = rr.hdr // never committed by the handler: the server commits at return, with the headers as they are
+		}
+		if got := sent.Get("X-Resp"); wantHdr && got != "resp-"+id || !wantHdr && got != "" {
 			return fmt.Errorf("client of request %s received header X-Resp=%q", id, got)
 		}
 	}
@@ -578,6 +594,11 @@ var batchProp = vp.Register(vp.Prop[BatchCase]{
 				Flushes: rapid.SampledFrom([]int{0, 0, 1, 3}).Draw(t, "flushes"),
 			})
 			acts = append(acts, Act{Kind: "start", Req: i}, Act{Kind: "release", Req: i})
+		}
+		for i := range c.Reqs {
+			if c.Reqs[i].Hijack == 0 && rapid.IntRange(0, 5).Draw(t, "emptyfirst") == 0 {
+				c.Reqs[i].EmptyFirst, c.Reqs[i].Code, c.Reqs[i].Pre1xx = true, 0, nil
+			}
 		}
 		for i := range c.Reqs {
 			// Informational responses are generated only in front of an
